@@ -11,6 +11,8 @@
 #include <type_traits>
 
 #include "smooth/bundle.hpp"
+#include "smooth/diff.hpp"
+#include "smooth/optim.hpp"
 #include "smooth/c1.hpp"
 #include "smooth/galilei.hpp"
 #include "smooth/se2.hpp"
@@ -344,6 +346,63 @@ struct T16 {
         const G res = value_at(mi(c, r)) + a;
         store(mi(c, r), res);
         with_mut(c, [&](auto& m) { m += a; });
+        break;
+      }
+      case K_DIFF_WRT_VIEW:
+      case K_MINIMIZE_WRT_VIEW: {
+        // a view handed to the generic layer (wrt(view)): numerical differentiation perturbs the
+        // argument in place and steps back, the solver updates it in place - exactly as for a value
+        if constexpr (!std::is_same_v<S, double>) {
+          c.applicable = 0;
+        } else {
+          G v = value_at(mi(c, r));
+          const G sv = value_at(mi(c, sr));
+          if (!v.coeffs().allFinite() || !sv.coeffs().allFinite() || !(v.coeffs().cwiseAbs().maxCoeff() < 1e100) ||
+              !(sv.coeffs().cwiseAbs().maxCoeff() < 1e100)) {
+            c.applicable = 0;  // the solver and the finite differences are not defined on non-finite contents
+          } else {
+            using smooth::diff::Type;
+            allow(c, 0, N, false);
+            const auto fres = [&sv](const auto& x) -> Eigen::Matrix<S, G::Dof, 1> { return x - sv; };
+            const auto fsq = [&sv](const auto& x) -> S { return (x - sv).squaredNorm(); };
+            if (k.id == K_MINIMIZE_WRT_VIEW) {
+              // one options object per solve: it carries the trust-region strategy's state
+              {
+                smooth::MinimizeOptions opts;
+                opts.max_iter = 3;
+                smooth::minimize<Type::Numerical>(fres, smooth::wrt(v), opts);
+              }
+              store(mi(c, r), v);
+              with_mut(c, [&](auto& m) {
+                smooth::MinimizeOptions opts;
+                opts.max_iter = 3;
+                smooth::minimize<Type::Numerical>(fres, smooth::wrt(m), opts);
+              });
+            } else if (k.idx & 1) {
+              const auto [f0, J0, H0] = smooth::diff::dr<2, Type::Numerical>(fsq, smooth::wrt(v));
+              emit_scalar(c.exp, c.exp_bytes, f0);
+              emit(c.exp, c.exp_bytes, J0);
+              emit(c.exp, c.exp_bytes, H0);
+              store(mi(c, r), v);
+              with_mut(c, [&](auto& m) {
+                const auto [f1, J1, H1] = smooth::diff::dr<2, Type::Numerical>(fsq, smooth::wrt(m));
+                emit_scalar(c.out, c.out_bytes, f1);
+                emit(c.out, c.out_bytes, J1);
+                emit(c.out, c.out_bytes, H1);
+              });
+            } else {
+              const auto [f0, J0] = smooth::diff::dr<1, Type::Numerical>(fres, smooth::wrt(v));
+              emit(c.exp, c.exp_bytes, f0);
+              emit(c.exp, c.exp_bytes, J0);
+              store(mi(c, r), v);
+              with_mut(c, [&](auto& m) {
+                const auto [f1, J1] = smooth::diff::dr<1, Type::Numerical>(fres, smooth::wrt(m));
+                emit(c.out, c.out_bytes, f1);
+                emit(c.out, c.out_bytes, J1);
+              });
+            }
+          }
+        }
         break;
       }
       case K_COEFFS_WRITE_ONE: {
